@@ -219,6 +219,24 @@ func genEPUB(r *hx.Rng) *pkg {
 		manifest = append(manifest, manItem{"ncx", "toc.ncx", "application/x-dtbncx+xml", ""})
 		p.Decoys = append(p.Decoys, part{Tok: ncxTok, ID: "ncx", Name: "", InManifest: true})
 	}
+	// a blank page in the spine (own stream, one package in twelve): a content document
+	// with an empty body carries no text and no token, so the token oracles cannot speak
+	// about it: compared with the model only (the chapter is listed and counted; Text() and
+	// Markdown() skip it; its Document page is numbered by its position)
+	blankName := ""
+	if br := r.Fork(0xb1a4); br.Chance(1, 12) {
+		name := joinName(p.Base, "blank.xhtml")
+		if !used[name] {
+			used[name] = true
+			blankName = name
+			p.Blank = name
+			manifest = append(manifest, manItem{"blank", "blank.xhtml", "application/xhtml+xml", ""})
+			at := br.Intn(len(spine) + 1)
+			spine = append(spine[:at], append([]string{"blank"}, spine[at:]...)...)
+			p.Oracle = false
+			p.Notes = append(p.Notes, "blank-chapter")
+		}
+	}
 	manifest = append(manifest, manItem{"css", "style/main.css", "text/css", ""})
 	hx.Shuffle(r, manifest)
 	if r.Chance(1, 30) && len(p.Declared) > 1 { // duplicate manifest id: ambiguous declaration
@@ -336,6 +354,9 @@ func genEPUB(r *hx.Rng) *pkg {
 			p.add(d.Name, chapterXHTML(d.Tok, d.Title), "")
 		}
 	}
+	if blankName != "" {
+		p.add(blankName, `<?xml version="1.0" encoding="UTF-8"?>`+"\n"+`<html xmlns="http://www.w3.org/1999/xhtml"><head><title>Blank</title></head><body></body></html>`, "")
+	}
 	if hasNav {
 		var nv strings.Builder
 		nv.WriteString(`<?xml version="1.0" encoding="UTF-8"?>` + "\n" + `<html xmlns="http://www.w3.org/1999/xhtml" xmlns:epub="http://www.idpf.org/2007/ops"><head><title>Contents</title></head><body><p>navigation page ` + navTok + ` here</p><nav epub:type="toc"><h2>Contents</h2><ol>`)
@@ -357,6 +378,7 @@ func genEPUB(r *hx.Rng) *pkg {
 	if r.Chance(1, 2) {
 		p.add(joinName(p.Base, "style/main.css"), "p { margin: 0 } /* not a chapter */", "")
 	}
+	p.admissionVariant(r.Fork(0xad31))
 	first := ""
 	if r.Bool() {
 		first = "mimetype"
